@@ -347,12 +347,26 @@ func (f *fetcher) dedupFetch(req *http.Request, key cache.CacheKey, clientHd *he
 
 	originalClientHd := *clientHd // Copy the original client headers so the shared requests don't get a modified version
 
-	fetchedObj, err, shared := f.group.Do(key.Hex, func() (any, error) {
-		// The result of this call is handed to every coalesced client, so the fetch must not be
-		// cancelled when the one client that happens to lead it hangs up.
-		sharedReq := req.WithContext(context.WithoutCancel(req.Context()))
-		return f.getFromCacheOrFetch(sharedReq, key, clientHd)
-	})
+	var fetchedObj any
+	var shared bool
+	for attempt := 0; ; attempt++ {
+		ledIt := false
+		fetchedObj, err, shared = f.group.Do(key.Hex, func() (any, error) {
+			ledIt = true
+			// The result of this call is handed to every coalesced client, so the fetch must not be
+			// cancelled when the one client that happens to lead it hangs up.
+			sharedReq := req.WithContext(context.WithoutCancel(req.Context()))
+			return f.getFromCacheOrFetch(sharedReq, key, clientHd)
+		})
+		if err != nil && shared && !ledIt && attempt == 0 && !errors.Is(err, ErrNotCacheable) {
+			// The fetch this request joined was made with another client's request and failed with
+			// it (a header the upstream transport refuses to send, say). That says nothing about
+			// this request: once more, this time possibly leading the fetch itself.
+			slog.Debug("Shared fetch led by another request failed, trying again", "url", req.URL, "error", err)
+			continue
+		}
+		break
+	}
 	if err != nil {
 		if errors.Is(err, ErrNotCacheable) {
 			slog.Debug("Request was not cacheable in singleflight, falling back to direct fetch", "url", req.URL)
